@@ -45,3 +45,53 @@ def big_packets(rng, n, target=17000):
                            "rdata": ("T", "CNAME", [("N", [b"www"] + late)])})
         out.append(p)
     return out
+
+
+def straddle_packets(rng, ks=range(0, 26)):
+    """boundary catalogue for the 14-bit pointer limit: a multi-label name placed so that it begins at 16384 - k
+    (k = 0..25: every label boundary of the name on either side of 16383/16384), followed by names sharing only its tail.
+    Padding records have the root owner name, so offsets are the same in plain and compressed output."""
+    out = []
+    for k in ks:
+        p = {"id": k, "opcode": 0, "rcode": 0, "flags": 0x8000, "opt": None, "qs": [], "ans": [], "nss": [], "adds": []}
+        target = 16384 - k          # offset of the first byte of the owner name of the straddling record
+        size = 12
+        while target - size > 11 + 255:
+            p["ans"].append({"name": [], "class": 1, "ttl": 0, "cf": False, "rdata": ("U", 4242, bytes([k]) * 255)})
+            size += 11 + 255
+        rest = target - size
+        if rest >= 12:
+            p["ans"].append({"name": [], "class": 1, "ttl": 0, "cf": False, "rdata": ("U", 4242, b"z" * (rest - 11))})
+            size += rest
+        elif rest > 0:
+            # too small for a record: shrink the previous blob and add a second one
+            prev = p["ans"].pop()
+            size -= 11 + 255
+            a = (target - size - 22) // 2
+            b = target - size - 22 - a
+            for n in (a, b):
+                p["ans"].append({"name": [], "class": 1, "ttl": 0, "cf": False, "rdata": ("U", 4242, b"y" * n)})
+            size = target
+        assert size == target, (size, target)
+        straddler = [b"head", b"tail%d" % (k % 3), b"example"]
+        p["ans"].append({"name": straddler, "class": 1, "ttl": 1, "cf": False, "rdata": ("T", "A", [("I", 1)])})
+        p["ans"].append({"name": [b"other"] + straddler[1:], "class": 1, "ttl": 2, "cf": False,
+                         "rdata": ("T", "CNAME", [("N", [b"x"] + straddler[2:])])})
+        p["adds"].append({"name": straddler, "class": 1, "ttl": 3, "cf": False, "rdata": ("T", "NS", [("N", straddler[1:])])})
+        out.append(p)
+    return out
+
+
+def chain_packets(rng, depths=(3, 11, 12, 13, 25, 40, 90)):
+    """names each extending the previous one by a leading label: the compressor emits pointer chains of that depth"""
+    out = []
+    for dpt in depths:
+        p = {"id": dpt, "opcode": 0, "rcode": 0, "flags": 0, "opt": None, "qs": [], "ans": [], "nss": [], "adds": []}
+        name = [b"zone"]
+        for i in range(dpt):
+            p["ans"].append({"name": list(name), "class": 1, "ttl": i, "cf": False, "rdata": ("T", "A", [("I", i)])})
+            name = [b"n%d" % i] + name
+            if sum(len(l) + 1 for l in name) + 1 > 250:
+                break
+        out.append(p)
+    return out
